@@ -88,6 +88,10 @@ def base_systems(tier):
     S['marginal4'] = dict(
         fx=[[0.0, 0.0, 0.0, 0.0], [1.0, -1.0, 0.2, 0.0], [0.0, 0.3, -2.0, 0.5], [0.0, 0.0, 0.4, -3.0]],
         fy=[[0.0], [0.2], [0.1], [-0.1]], gx=[[0.0, 0.2, 0.1, 0.3]], gy=[[-2.5]], T=[1.0, 3.0, 0.5, 1.5])
+    # undamped oscillator (an exactly imaginary pair: zero real part, non-zero magnitude) next to a decaying state
+    S['undamped3'] = dict(
+        fx=[[0.0, 3.0, 0.0], [-3.0, 0.0, 0.0], [0.0, 0.0, -1.0]], fy=[[0.0], [0.0], [0.1]],
+        gx=[[0.0, 0.0, 0.3]], gy=[[-2.0]], T=[1.0, 1.0, 2.0])
     S['two'] = dict(fx=[[-1.0, 2.0], [-2.0, -1.0]], fy=[[0.3], [0.1]], gx=[[0.1, 0.2]], gy=[[-1.0]], T=[0.5, 2.0])
     if tier != 'quick':
         rng = np.random.RandomState(7)
